@@ -169,16 +169,17 @@ class Matcher:
             sub = list(sub)
             greedy = op is sc.MAX_REPEAT
 
-            def rep(count, p, g):
+            def rep(count, p, g, last):
+                # mirrors SRE_OP_MAX_UNTIL / MIN_UNTIL: below the minimum the
+                # body must match; above it another iteration is attempted only
+                # if the previous iteration started somewhere else (last_ptr)
                 def more():
-                    if hi is not sc.MAXREPEAT and count >= hi:
-                        return None
-
-                    def k3(p2, g2):
-                        if p2 == p and count >= lo:
-                            return None       # empty iteration: CPython stops here
-                        return rep(count + 1, p2, g2)
-                    return self.m(sub, el, p, g, k3, endpos)
+                    if count >= lo:
+                        if hi is not sc.MAXREPEAT and count >= hi:
+                            return None
+                        if p == last:
+                            return None
+                    return self.m(sub, el, p, g, lambda p2, g2: rep(count + 1, p2, g2, p), endpos)
 
                 def stop():
                     if count < lo:
@@ -189,7 +190,7 @@ class Matcher:
                     if r is not None:
                         return r
                 return None
-            return rep(0, pos, groups)
+            return rep(0, pos, groups, -1)
         raise Unmodelled('regex op %s' % (op,))
 
 
